@@ -2383,17 +2383,21 @@ def BHJM_cylinder_segment(
     # mask_inside = None
     # if in_out == "auto":
     # phip1 in [-2pi,0], phio2 in [0,2pi]
+    # the observer angle and its two wrapped representations (phi = 0 has both +-2pi)
     phio1 = phi
-    phio2 = phi - np.sign(phi) * 2 * np.pi
+    phio2 = phi - 2 * np.pi
+    phio3 = phi + 2 * np.pi
 
     # phi=phi1, phi=phi2
-    mask_phi1 = close(phio1, phi1) | close(phio2, phi1)
-    mask_phi2 = close(phio1, phi2) | close(phio2, phi2)
+    mask_phi1 = close(phio1, phi1) | close(phio2, phi1) | close(phio3, phi1)
+    mask_phi2 = close(phio1, phi2) | close(phio2, phi2) | close(phio3, phi2)
 
     # r, phi ,z lies in-between, avoid numerical fluctuations (e.g. due to rotations) by including 1e-14
     mask_r_in = (r1 - 1e-14 < r) & (r < r2 + 1e-14)
-    mask_phi_in = (np.sign(phio1 - phi1) != np.sign(phio1 - phi2)) | (
-        np.sign(phio2 - phi1) != np.sign(phio2 - phi2)
+    mask_phi_in = (
+        (np.sign(phio1 - phi1) != np.sign(phio1 - phi2))
+        | (np.sign(phio2 - phi1) != np.sign(phio2 - phi2))
+        | (np.sign(phio3 - phi1) != np.sign(phio3 - phi2))
     )
     mask_z_in = (z1 - 1e-14 < z) & (z < z2 + 1e-14)
 
